@@ -122,6 +122,14 @@ def check(ctx, src):
     t = flat(ld)
     ctx.check("while isinstance(cur, ScopeLet)" in t and "cur.define_nonlocal(node, root)" in t and "cur.bindings[name] = name" in t and "node.names.remove(name)" in t, "OUTERVAR-RESOLVE",
               f"{SC}|ScopeLet.define_nonlocal|walk", "a declaration inside a let must be applied to the enclosing lets of the same Python scope and then passed to it", SC, ld.lineno, detail="walk lets; delegate")
+    # the walk over the lets of this Python scope starts at the declaring let itself (a `global` declared directly inside
+    # the let that binds the name must unbind it there)
+    wl = next((n for n in pyq.walk_no_nested(ld) if isinstance(n, ast.While)), None)
+    wv = next((c.args[0].id for c in ast.walk(wl.test) if isinstance(c, ast.Call) and dotted(c.func) == "isinstance" and c.args and isinstance(c.args[0], ast.Name)), None) if wl is not None else None
+    inits = [v_ for t_, v_, st_ in pyq.assign_pairs(ld) if isinstance(t_, ast.Name) and t_.id == wv and not any(st_ is x for x in ast.walk(wl))] if wv else []
+    ctx.decide("OUTERVAR-RESOLVE", f"{SC}|ScopeLet.define_nonlocal|walk start", None if not inits else (True if all(isinstance(v_, ast.Name) and v_.id == "self" for v_ in inits) else (False if any(norm(v_) == "self.parent" for v_ in inits) else None)),
+               f"the walk over the enclosing lets starts at `{norm(inits[0]) if inits else None}`; it must start at the declaring let itself", SC, ld.lineno,
+               witness="(let [x 1] (global x) (setv x 2)) still assigns the let's variable, not the module's", detail="cur = self")
     check_scope_routing(ctx, comp)
     check_scopefn_params(ctx, comp, "SCOPE-PARAMS")
     ctx.floor("OUTERVAR-RESOLVE", 12)
